@@ -42,6 +42,9 @@ def reader_seq(arms, rec, info, prop_nibble=None):
     tree = arms[rec][0]
 
     def choose(kind, text):
+        rt = O.record_test(text, rec, None)
+        if rt is not None:
+            return rt
         m = re.search(r'record == OasisRecord::(\w+)', text)
         if m:
             return m.group(1) == rec
@@ -1257,6 +1260,8 @@ def run(ctx):
     ctx.attempt(check_tagunion, ctx, db)
     from . import C19   # every polygon's vertices go through the point-list encoder: its closing edge decides whether a vertex may be dropped
     ctx.attempt(C19.check_closing_edge_source, ctx, db)
+    ctx.memo('guards', {'src/oasis.cpp'}, C19.check_guards, db)      # every unsigned / signed integer of the file goes through the varint decoders
+    ctx.attempt(C19.check_packing, ctx, db)
 
 
 MANIFEST = dict(
